@@ -44,7 +44,7 @@ func init() {
 			"(D3) the proof the responder verifies is the plaintext of a box whose key mixes DH(peer ephemeral, own account key); the requester seals its proof under a key mixing DH(own ephemeral, intended account key): a proof addressed to one responder cannot be forwarded to another. " +
 			"(D4) the secret half of the ephemeral DH comes only from box.GenerateKey(crypto/rand.Reader) executed inside the session (no cached, package-level or deterministic key). " +
 			"(D5) a peer-supplied X25519 point that reaches a non-contributory DH (box.Precompute, curve25519.ScalarMult) must pass a check that rejects low-order points: an API that errors on them (curve25519.X25519, ecdh ECDH) or an equality test on the point / the secret computed from it whose equal side rejects; the check must be enforced before any signature over the shared secret is produced and before success. " +
-			"(D6) the stream handler records the incoming request only after the responder handshake returned nil, only on the equal side of a comparison between the announced ShareableContact.Pk and the authenticated key, and the recorded contact carries the authenticated key; the sender marks the request sent only after its handshake returned nil, for the key it passed to the handshake. " +
+			"(D6) the stream handler records the incoming request only after the responder handshake returned nil, only on the equal side of a comparison between the announced ShareableContact.Pk and the authenticated key (made in the handler itself or in a module helper, followed two levels deep, all of whose success returns lie on the equal side of a comparison between its key parameter and its contact parameter's Pk, called with the authenticated key and the received contact, its nil error being the accepting outcome), and the recorded contact carries the authenticated key; the sender marks the request sent only after its handshake returned nil, for the key it passed to the handshake. " +
 			"(D7) the function that turns the DH outputs into the box keys (found by role: a module function on the path from a box Seal/Open key argument that calls a hash primitive) returns the digest of a hash fed with every one of its byte parameters: a returned array no digest is stored into, a hash.Hash.Sum whose result is discarded although its argument is not a zero-length slice with room for the digest (Sum appends), or a parameter (or all but one element of it) that never reaches the hash input are reported; the provenance models Sum accordingly, so D3 sees such a key as mixing nothing. " +
 			"Not decided: a symbolic (Dolev-Yao) proof of the protocol; unforgeability of Ed25519 and secrecy of NaCl box; that the two ends agree on nonces and box keys (any honest run decides that); distinctness of the two step nonces (the step keys differ, so it is not a necessary condition); that a box-open failure is tested (a failed open yields nil plaintext which the following parse and Verify reject); rejection of non-Ed25519 identity keys (three redundant checks exist, none individually necessary); frame bounds (C18); the reference value of an equality-based low-order check; the order of two assignments to the same field inside one function (provenance is flow-insensitive).",
 		Trusted:     []string{"golang.org/x/tools go/packages+go/ssa (v0.29.0)", "semantics of nacl/box, curve25519.X25519 (errors on low-order input), libp2p crypto.PubKey.Verify", "go/types"},
@@ -628,6 +628,13 @@ func (st *c06State) content(addr ssa.Value, fr *c06Frame, depth int) {
 		st.p.Atoms["field:"+c06FieldName(a)] = true
 		st.typeAtoms(a.Type().(*types.Pointer).Elem())
 		base, bfr := st.resolveBase(a.X, fr)
+		if lbl, ok := st.wk.stop[base]; ok {
+			// a field of a named (stop) value
+			if _, sty := c06StructOf(a); sty != nil {
+				st.p.Atoms[lbl+"."+sty.Field(a.Field).Name()] = true
+			}
+			return
+		}
 		if al, ok := base.(*ssa.Alloc); ok && !st.wk.escapes(al) && al.Referrers() != nil {
 			for _, r := range *al.Referrers() {
 				if fa2, ok := r.(*ssa.FieldAddr); ok && fa2.X == ssa.Value(al) && fa2.Field == a.Field {
@@ -2241,6 +2248,39 @@ func c06RuleD6(c *Ctx, entryReq, entryResp *ssa.Function) {
 			eqSites = append(eqSites, cmp.In)
 			eqAccept = append(eqAccept, cmp.Eq...)
 		}
+		// ... or a helper that performs the comparison: its summary says which parameter is the
+		// key and which the contact; the caller must pass the authenticated key and the received
+		// contact, and the nil-error side of the call is the equal side
+		nHelpers := 0
+		for _, b := range h.Blocks {
+			for _, in := range b.Instrs {
+				call, ok := in.(*ssa.Call)
+				if !ok {
+					continue
+				}
+				g := staticCallee(call.Common())
+				if g == nil || g == h || g == entryResp || g.Blocks == nil || !inModule(g) {
+					continue
+				}
+				args := call.Common().Args
+				for _, sm := range c06KeyEqSummary(w, g, 2, map[*ssa.Function]bool{}) {
+					if sm.Key >= len(args) || sm.Contact >= len(args) {
+						continue
+					}
+					pk, pc := wk.prov(args[sm.Key]), wk.prov(args[sm.Contact])
+					if !isAuth(pk) || !pc.has("net") || pc.has("hs-key") {
+						continue
+					}
+					nHelpers++
+					c.analysed(g)
+					eqSites = append(eqSites, in)
+					if v := errVerdict(call); v != nil {
+						eqAccept = append(eqAccept, edgesOfVerdict(v).Accept...)
+					}
+				}
+			}
+		}
+		c.count("key_equality_helpers", nHelpers)
 		okB := len(eqSites) > 0
 		for _, a := range anchors {
 			if !dominatedBy(eqAccept, a) {
@@ -2317,6 +2357,116 @@ func c06RuleD6(c *Ctx, entryReq, entryResp *ssa.Function) {
 	if nReq == 0 {
 		c.undecided("D6", "requester caller", token.NoPos, "no module function outside internal/handshake calls RequestUsingReaderWriter")
 	}
+}
+
+// c06EqSummary: every success return of the summarised function is reached only on the equal
+// side of a comparison between (bytes derived from) parameter Key and the Pk field of the
+// ShareableContact parameter Contact.
+type c06EqSummary struct{ Key, Contact int }
+
+// c06KeyEqSummary computes the key-equality summaries of module function g (error result
+// required: its nil error is the accepting outcome). Helpers of helpers are followed to depth.
+func c06KeyEqSummary(w *World, g *ssa.Function, depth int, busy map[*ssa.Function]bool) []c06EqSummary {
+	if g == nil || g.Blocks == nil || busy[g] || depth <= 0 || errResultIndex(g.Signature) < 0 {
+		return nil
+	}
+	busy[g] = true
+	defer delete(busy, g)
+	wk := c06NewWalker(w, map[*ssa.Function]bool{g: true}, nil)
+	lbl := func(i int) string { return fmt.Sprintf("A%d", i) }
+	for i, p := range g.Params {
+		wk.stop[p] = lbl(i)
+	}
+	// which parameter (alone) a value derives from; pkOf: through the Pk field of a ShareableContact
+	classify := func(v ssa.Value) (keyOf, pkOf int) {
+		keyOf, pkOf = -1, -1
+		p := wk.prov(v)
+		n := 0
+		for i := range g.Params {
+			whole, pk := p.has(lbl(i)), p.has(lbl(i)+".Pk") && p.has("field:ShareableContact.Pk")
+			if whole || pk || p.hasPrefix(lbl(i)+".") || p.hasPrefix(lbl(i)+"[") {
+				n++
+			}
+			if whole {
+				keyOf = i
+			}
+			if pk && !whole {
+				pkOf = i
+			}
+		}
+		if n != 1 || p.has("net") {
+			return -1, -1
+		}
+		if pkOf >= 0 {
+			keyOf = -1
+		}
+		return keyOf, pkOf
+	}
+	guards := func(acc []edge, verdicts []ssa.Value) bool {
+		return len(acc) > 0 && len(bypassReturns(g, acc, verdicts)) == 0 || len(acc) == 0 && len(verdicts) > 0 && len(bypassReturns(g, nil, verdicts)) == 0
+	}
+	seen := map[c06EqSummary]bool{}
+	var out []c06EqSummary
+	add := func(s c06EqSummary) {
+		if !seen[s] {
+			seen[s] = true
+			out = append(out, s)
+		}
+	}
+	for _, cmp := range c06Comparisons(g, true) {
+		kx, px := classify(cmp.X)
+		ky, py := classify(cmp.Y)
+		var s c06EqSummary
+		switch {
+		case kx >= 0 && py >= 0 && kx != py:
+			s = c06EqSummary{kx, py}
+		case ky >= 0 && px >= 0 && ky != px:
+			s = c06EqSummary{ky, px}
+		default:
+			continue
+		}
+		if guards(cmp.Eq, nil) {
+			add(s)
+		}
+	}
+	// a helper of the helper, given this function's own parameters
+	for _, b := range g.Blocks {
+		for _, in := range b.Instrs {
+			call, ok := in.(*ssa.Call)
+			if !ok {
+				continue
+			}
+			g2 := staticCallee(call.Common())
+			if g2 == nil || g2 == g || g2.Blocks == nil || !inModule(g2) {
+				continue
+			}
+			args := call.Common().Args
+			for _, sm := range c06KeyEqSummary(w, g2, depth-1, busy) {
+				if sm.Key >= len(args) || sm.Contact >= len(args) {
+					continue
+				}
+				k, _ := classify(args[sm.Key])
+				cp, ok := stripConv(args[sm.Contact]).(*ssa.Parameter)
+				if k < 0 || !ok {
+					continue
+				}
+				ci := -1
+				for i, p := range g.Params {
+					if p == cp {
+						ci = i
+					}
+				}
+				v := errVerdict(call)
+				if ci < 0 || ci == k || v == nil {
+					continue
+				}
+				if guards(edgesOfVerdict(v).Accept, []ssa.Value{v}) {
+					add(c06EqSummary{k, ci})
+				}
+			}
+		}
+	}
+	return out
 }
 
 func c06SortedFuncs(m map[*ssa.Function]bool) []*ssa.Function {
